@@ -78,3 +78,46 @@ def run_venv(script, payload=None, timeout=300, cwd='/'):
         raise RuntimeError('venv subprocess failed: %s' % p.stderr[-1500:])
     lines = [l for l in p.stdout.strip().split('\n') if l.strip()]
     return json.loads(lines[-1])
+
+
+_BUILD_SETUP = """
+from setuptools import setup, Extension
+from Cython.Build import cythonize
+import numpy
+setup(ext_modules=cythonize(
+    [Extension("%(name)s", ["%(name)s.pyx"],
+               include_dirs=[numpy.get_include()])],
+    language_level=3))
+"""
+
+
+def run_built_pyx(relpath, script, payload=None, root=None, timeout=600):
+    """Build ONE self-contained extension (e.g. pysph/base/linalg3.pyx) from
+    the working tree in a temporary directory outside /repo and /verif, run
+    `script` (python source; the module is importable under its base name;
+    reads JSON on stdin, prints one JSON line last) under /venv/bin/python,
+    remove the directory.  Only used on replay paths (takes ~15 s)."""
+    import shutil
+    import tempfile
+    root = root or REPO_ROOT
+    name = os.path.basename(relpath)[:-4]
+    tmp = tempfile.mkdtemp(prefix='pyvc_build_')
+    try:
+        src = os.path.join(root, relpath)
+        shutil.copy(src, tmp)
+        if os.path.exists(src[:-4] + '.pxd'):
+            shutil.copy(src[:-4] + '.pxd', tmp)
+        with open(os.path.join(tmp, 'setup_tmp.py'), 'w') as f:
+            f.write(_BUILD_SETUP % dict(name=name))
+        env = dict(os.environ)
+        env.pop('PYTHONPATH', None)
+        p = subprocess.run(['/venv/bin/python', 'setup_tmp.py', 'build_ext',
+                            '--inplace'], cwd=tmp, capture_output=True,
+                           text=True, env=env, timeout=timeout)
+        if p.returncode != 0:
+            raise RuntimeError('build of %s failed: %s' % (
+                relpath, (p.stdout + p.stderr)[-800:]))
+        return run_venv('import sys; sys.path.insert(0, %r)\n' % tmp +
+                        script, payload, timeout=timeout, cwd=tmp)
+    finally:
+        shutil.rmtree(tmp, ignore_errors=True)
